@@ -96,6 +96,8 @@ type NilAnalysis struct {
 	fieldLo map[fieldLoKey]int
 	byName  map[*ssa.Function]map[string]ssa.Value
 	litF    map[string]bool
+	freezeNN  bool // warm-up rounds: parameter non-nil facts are not falsified yet
+	converged bool
 }
 
 func isNilable(t types.Type) bool {
@@ -300,14 +302,23 @@ func NewNilAnalysis(p *Prog) *NilAnalysis {
 	a.computeGlobals()
 	a.computeCtorFields()
 	a.computeLenSummaries()
-	for iter := 0; iter < 12; iter++ {
+	// The summaries are a greatest fixpoint: non-nil facts start true and are falsified, while the
+	// field facts handed to callees (paramFields) are recomputed from the callers' current facts on
+	// every round.  During the first rounds only the latter are updated: falsifying a parameter
+	// before the facts of its callers' own parameters have arrived is sticky and needlessly
+	// pessimistic (a closure called by a helper whose caller established the guard).  The result is
+	// what the last round, which changes nothing, finds consistent.
+	const warmup = 2
+	a.converged = false
+	for iter := 0; iter < 24; iter++ {
 		changed := false
 		for _, fn := range fns {
 			if a.analyzeFn(fn) {
 				changed = true
 			}
 		}
-		if a.updateParams(fns) {
+		a.freezeNN = iter < warmup
+		if a.updateParams(fns) || iter < warmup {
 			changed = true
 		}
 		if a.updateCtorFields() {
@@ -317,6 +328,7 @@ func NewNilAnalysis(p *Prog) *NilAnalysis {
 			changed = true
 		}
 		if !changed {
+			a.converged = true
 			break
 		}
 	}
